@@ -48,8 +48,11 @@ def handle (line : String) : String :=
     | [] => s!"* | 1 | {nt}"
     | _ =>
       -- report the first rule that is not the known lost-response class, else that class
-      match rs.find? (fun r => r != "C02.failed-record-in-log-after-lost-response") with
-      | some r => s!"* | 0:{r} | {nt}"
-      | none => s!"* | 0:C02.failed-record-in-log-after-lost-response | {nt}"
+      -- the most serious class first: a success promise whose record is missing, misplaced or duplicated
+      let serious := ["C02.acked-record-not-in-log", "C02.acked-record-at-other-offset", "C02.record-twice-in-log", "C02.acked-records-out-of-produce-order"]
+      let all := ",".intercalate rs.eraseDups
+      match serious.find? (fun r => rs.contains r) with
+      | some r => s!"* | 0:{r} | {nt} | {all}"
+      | none => s!"* | 0:{rs.head!} | {nt} | {all}"
 
 def main : IO UInt32 := runLoop () (fun _ line => ((), handle line))
